@@ -109,12 +109,12 @@ def ref_pack_pds(msg):
     return out
 
 
-def ref_encode(msg, cfgs, enc='latin_1', hex_bitmap=False):
+def ref_encode(msg, cfgs, enc='latin_1', hex_bitmap=False, keep_empty=False):
     msg = dict(msg)
     carriers = sorted(int(k) for k in cfgs if cfgs[k].get('field_processor') == 'PDS')
     for c, s in zip(carriers, ref_pack_pds(msg)):
         msg['DE%d' % c] = s
-    bits = sorted(int(k[2:]) for k, v in msg.items() if k.startswith('DE') and k[2:].isdigit() and (v or v == 0))
+    bits = sorted(int(k[2:]) for k, v in msg.items() if k.startswith('DE') and k[2:].isdigit() and (v or v == 0 or keep_empty))
     body = b''
     for b in bits:
         cfg = cfgs[str(b)]
@@ -294,6 +294,8 @@ def concrete_msg(msg, cfgs=None):
         if isinstance(v, dict) and 'decimal' in v:
             import decimal
             v = decimal.Decimal(v['decimal'])
+        elif isinstance(v, dict) and isinstance(v.get('date'), list):
+            v = datetime.datetime(*v['date'])
         elif isinstance(v, dict) and v.get('date'):
             v = SAMPLE_DATE
             if cfgs is not None and k.startswith('DE'):
